@@ -609,6 +609,10 @@ func (e *Env) evalCall(x *Expr) Val {
 		}
 		e.fail("len of %s", a.s)
 		return Val{"0", SInt, nil}
+	case "cap":
+		a := e.eval(x.Args[0])
+		vc.declareFun("chan_cap", []Sort{SInt}, SInt)
+		return Val{sx("chan_cap", a.t), SInt, types.Typ[types.Int]}
 	case "isnil":
 		a := e.eval(x.Args[0])
 		return Val{e.specEqual(a, Val{"NIL", "NIL", nil}), SBool, nil}
